@@ -2,6 +2,7 @@ package props
 
 import (
 	"encoding/base64"
+	"errors"
 	"fmt"
 	"os"
 	"os/exec"
@@ -106,6 +107,11 @@ func (h c15Head) md() string {
 	}
 	return strings.TrimRight("# "+h.text, " ")
 }
+
+// c15Refuse is a destination that accepts nothing.
+type c15Refuse struct{}
+
+func (c15Refuse) Write(p []byte) (int, error) { return 0, errors.New("refused") }
 
 // slugModel is the reference: ASCII alnum lower-cased, space/-/_ -> '-', everything else dropped; empty -> "heading".
 func slugModel(t string) string {
@@ -217,7 +223,7 @@ func runC15(r *core.Run) {
 			idx[i] = string([]byte{byte(i)})
 		}
 		nn := n
-		wordsSub(r, "structured/"+cn, fmt.Sprintf("every sequence of ≤%d headings from %d (text,form) pairs (texts %q × {ATX, Setext, ATX in quote, ATX in list item}), joined by blank lines, converted on a long-lived instance under %s, each conversion preceded by a conversion on a second attribute-enabled instance of headings carrying the predicted ids explicitly; ids from the tokenized output must be non-empty and pairwise distinct; where they differ from the reference model (slug + first free numeric suffix) the same document is converted alone in a new process and must get the same ids there (ids depend on the document only); distinct = id-sequence digest", nn, len(heads), c15Texts, cn),
+		wordsSub(r, "structured/"+cn, fmt.Sprintf("every sequence of ≤%d headings from %d (text,form) pairs (texts %q × {ATX, Setext, ATX in quote, ATX in list item}), joined by blank lines, converted on a long-lived instance under %s, each conversion preceded by a conversion on a second attribute-enabled instance of headings carrying the predicted ids explicitly and by a conversion of the same document on the same instance into a writer that refuses every byte; ids from the tokenized output must be non-empty and pairwise distinct; where they differ from the reference model (slug + first free numeric suffix) the same document is converted alone in a new process and must get the same ids there (ids depend on the document only); distinct = id-sequence digest", nn, len(heads), c15Texts, cn),
 			idx, nn, func(s *core.Sub, w int) func([]byte) uint64 {
 				cv := core.NewConv(cfg)
 				// history clause across instances: a second, attribute-enabled instance converts, right before each
